@@ -406,3 +406,41 @@ pub fn binomial_ag(rng: &mut Rng, r: u32, directed: bool, extra: usize) -> AG {
     }
     AG { n, directed, edges }
 }
+
+/// Flow networks that need flow cancellation: s, two layers, t, with cross edges; random edge order.
+pub fn layered_flow_ag(rng: &mut Rng) -> AG {
+    let (l1, l2) = (2 + rng.below(2), 2 + rng.below(2));
+    let n = 2 + l1 + l2;
+    let (s, t) = (0, n - 1);
+    let mut edges = vec![];
+    let cap = |rng: &mut Rng| 1 + rng.below(3) as i64;
+    for i in 0..l1 { if rng.chance(5, 6) { edges.push((s, 1 + i, cap(rng))); } }
+    for j in 0..l2 { if rng.chance(5, 6) { edges.push((1 + l1 + j, t, cap(rng))); } }
+    for i in 0..l1 { for j in 0..l2 { if rng.chance(3, 5) { edges.push((1 + i, 1 + l1 + j, cap(rng))); } } }
+    if rng.chance(1, 3) { edges.push((1 + rng.below(l1), 1 + rng.below(l1), cap(rng))); }            // within layer / self-loop
+    if rng.chance(1, 3) { edges.push((1 + l1 + rng.below(l2), 1 + rng.below(l1), cap(rng))); }       // backward
+    rng.shuffle(&mut edges);
+    edges.truncate(13);
+    // random renaming keeps s and t arbitrary for the (s, t) pairs the driver picks
+    AG { n, directed: true, edges }
+}
+
+/// Sparse undirected graphs rich in odd cycles with pendant paths (blossoms), 6..9 nodes.
+pub fn blossom_ag(rng: &mut Rng) -> AG {
+    let n = 6 + rng.below(4);
+    let mut p: Vec<usize> = (0..n).collect();
+    rng.shuffle(&mut p);
+    let mut edges = vec![];
+    let c = 3 + 2 * rng.below(2); // odd cycle of length 3 or 5
+    for i in 0..c { edges.push((p[i], p[(i + 1) % c], 1)); }
+    // pendant paths / extra edges
+    for i in c..n {
+        let a = p[rng.below(i)];
+        edges.push((a, p[i], 1));
+    }
+    for _ in 0..rng.below(3) { edges.push((rng.below(n), rng.below(n), 1)); }
+    rng.shuffle(&mut edges);
+    for e in edges.iter_mut() { if rng.chance(1, 2) { *e = (e.1, e.0, e.2); } }
+    edges.truncate(12);
+    AG { n, directed: false, edges }
+}
